@@ -94,6 +94,13 @@ def write_violation(pid, n, kind, unit, f, repo, work, seed, cfg):
             _oracle_cache[ck] = run_oracles(groups, repo, work, seed)
         fails, out = _oracle_cache[ck]
         mine = [x for x in fails if pid in x.get("props", [])]
+        # an input that merely re-observes a recorded open finding is not a counterexample for this obligation
+        try:
+            with open(os.path.join(ROOT, "known_findings.json")) as kf:
+                open_keys = set(k.get("obligation") for k in json.load(kf).get("findings", []) if k.get("status") == "open")
+        except Exception:
+            open_keys = set()
+        mine = [x for x in mine if ("oracle:%s" % x.get("clause")) not in open_keys]
         # prefer a failure of the same function
         fn = doc.get("function", "")
         lab = doc.get("obligation", "") or doc.get("failed_obligation", "")
